@@ -254,15 +254,18 @@ CHECKS["C13"] = dict(
 
 CHECKS["C14"] = dict(
     technique="Coq proofs over R: every objective (ELBO, multi-sample ELBO, VR, CUBO, self-normalised KLpq, [S] and [S,K]) returns exactly c when log p - log q = c for every draw (any sample count, alpha, n); conjugate-pair identities (log joint - log posterior is the constant log marginal) incl. through exp/sigmoid/affine transforms with their Jacobians; Paramcoq enclosures; correspondence on recorded p()/q() tensors of JSON-built conjugate models, fresh-draw and pairing checks",
-    text="27 theorems in prop/C14.v: tight_elbo / _elbo_multi / _vr / _vr_multi / _cubo / _cubo_multi / _klpq / _klpq_multi (list induction, "
+    text="34 theorems in prop/C14.v: tight_elbo / _elbo_multi / _vr / _vr_multi / _cubo / _cubo_multi / _klpq / _klpq_multi (list induction, "
          "every sample count), elbo_entropy_identity and elbo_entropy_tight_iff (the analytic-entropy ELBO equals c plus a zero-mean "
          "Monte-Carlo term: the honest form of 'for every draw' for that variant), logsumexp_spec, bayes_constant_* for gamma-exponential, "
-         "gamma-Poisson, normal-normal, beta-binomial and their transformed versions, exact_at_posterior, C14_run_encloses_*. Tie: "
+         "gamma-Poisson, normal-normal, beta-binomial and their transformed versions, the bivariate normal with a FULL noise covariance "
+         "(and with independent noise), the Gaussian model through the cumulative-sum-exp transform with its Jacobian "
+         "(bayes_constant_bivariate_normal(_independent_noise), cumsumexp_prior_with_jacobian_is_gaussian, bayes_constant_cumsumexp), "
+         "exact_at_posterior, C14_run_encloses_*. Tie: "
          "objectives and conjugate densities evaluated in Coq (interval run) on the tensors p() and q() returned on the same draw, for "
          "every objective x sample shape x q in {joint, bare Distribution} x conjugate pair; each request must draw fresh samples and "
          "evaluate p and q after the draw; objective vs log marginal on the implementation.",
-    note="Trusted: Coq kernel; hand-written M_vi.v; lgamma / ln sqrt(2 pi) / digamma values are oracle inputs; multivariate normal "
-         "pair checked on the implementation only; instrumentation by dynamic subclassing of the p/q models. " + AX_R,
+    note="Trusted: Coq kernel; hand-written M_vi.v; lgamma / ln sqrt(2 pi) / digamma values are oracle inputs; the three "
+         "parameterisations of the variational multivariate normal (covariance / precision / scale_tril) are tied on the implementation only; instrumentation by dynamic subclassing of the p/q models. " + AX_R,
     design="§6 C14")
 
 CHECKS["C15"] = dict(
